@@ -1,8 +1,12 @@
 //! Shared machinery: helper processes, strict minidump decoder, ELF kit,
 //! target program driver, reference models.
+pub mod arena;
 pub mod dest;
+pub mod dso;
 pub mod dumper;
 pub mod helpers;
 pub mod layout;
 pub mod md;
 pub mod regs;
+pub mod target;
+pub mod world;
